@@ -4,6 +4,7 @@ import (
 	"bytes"
 	"compress/gzip"
 	"context"
+	"encoding/json"
 	"fmt"
 	"net/http"
 	"net/http/httptest"
@@ -47,150 +48,193 @@ func C08(r *h.Run) {
 		}
 		for si, sent := range sents {
 			for ai, accept := range accepts {
-				if !r.Thorough() && (pi+si+ai)%3 != 0 {
+				// quick: every third tuple under one protocol — except that a request advertising
+				// nothing in its own header runs under all three, with the other headers set
+				if !r.Thorough() && (pi+si+ai)%3 != 0 && accept != "" {
 					continue
 				}
-				proto := protos[(pi+si+ai)%3]
-				unary := (pi+ai)%2 == 0 && proto == "connect"
-				cfg := envCfg{Proto: proto}
-				calls := 0
-				hopts := []connect.HandlerOption{connect.WithCodec(h.ToyCodec{})}
-				for _, n := range reg {
-					hopts = append(hopts, regOption(n))
-				}
-				big := bytes.Repeat([]byte("z"), 64)
-				var handler *connect.Handler
-				if unary {
-					handler = connect.NewUnaryHandler("/verif.Svc/M", func(_ context.Context, _ *connect.Request[h.Raw]) (*connect.Response[h.Raw], error) {
-						calls++
-						return connect.NewResponse(&h.Raw{B: big}), nil
-					}, hopts...)
-				} else {
-					handler = connect.NewServerStreamHandler("/verif.Svc/M", func(_ context.Context, _ *connect.Request[h.Raw], s *connect.ServerStream[h.Raw]) error {
-						calls++
-						return s.Send(&h.Raw{B: big})
-					}, hopts...)
-				}
-				payload := []byte("q")
-				wire := payload
-				flag := byte(0)
-				switch sent {
-				case "tagA", "tagB", "tagC":
-					wire, flag = compressToy(sent, payload), 1
-				case "gzip":
-					var b bytes.Buffer
-					zw := gzip.NewWriter(&b)
-					_, _ = zw.Write(payload)
-					_ = zw.Close()
-					wire, flag = b.Bytes(), 1
-				}
-				body := wire
-				if !unary {
-					body = h.Frame(flag, wire)
-				}
-				req := httptest.NewRequest(http.MethodPost, "/verif.Svc/M", bytes.NewReader(body))
-				req.Header.Set("Content-Type", cfg.contentType(unary))
-				encH, accH := cfg.encodingHeader(unary), "Grpc-Accept-Encoding"
-				if proto == "connect" {
-					accH = "Connect-Accept-Encoding"
+				for _, proto := range protos {
+					if accept != "" && proto != protos[(pi+2*si+ai)%3] {
+						continue
+					}
+					withForeign := (pi+si+ai)%2 == 0 || accept == ""
+					unary := (pi+ai)%2 == 0 && proto == "connect"
+					cfg := envCfg{Proto: proto}
+					calls := 0
+					hopts := []connect.HandlerOption{connect.WithCodec(h.ToyCodec{})}
+					for _, n := range reg {
+						hopts = append(hopts, regOption(n))
+					}
+					big := bytes.Repeat([]byte("z"), 64)
+					var handler *connect.Handler
 					if unary {
-						accH = "Accept-Encoding"
+						handler = connect.NewUnaryHandler("/verif.Svc/M", func(_ context.Context, _ *connect.Request[h.Raw]) (*connect.Response[h.Raw], error) {
+							calls++
+							return connect.NewResponse(&h.Raw{B: big}), nil
+						}, hopts...)
+					} else {
+						handler = connect.NewServerStreamHandler("/verif.Svc/M", func(_ context.Context, _ *connect.Request[h.Raw], s *connect.ServerStream[h.Raw]) error {
+							calls++
+							return s.Send(&h.Raw{B: big})
+						}, hopts...)
 					}
-				}
-				if sent != "" {
-					req.Header[encH] = []string{sent}
-				}
-				if accept != "" {
-					req.Header[accH] = []string{accept}
-				}
-				rec := httptest.NewRecorder()
-				p := safely(func() { handler.ServeHTTP(rec, req) })
-				in := map[string]any{"registered": registered, "proto": proto, "unary": unary, "request_encoding": sent, "accept_encoding": accept}
-				r.Eval("negotiate", fmt.Sprint(in))
-				if p != nil {
-					r.Fail(h.Failure{Key: "negotiate/panic", Family: "negotiate", What: fmt.Sprint("panic: ", p), Input: in})
-					continue
-				}
-				kind := "server"
-				if unary {
-					kind = "unary"
-				}
-				code, msg := peerError(proto, kind, rec)
-				respEnc := rec.Header().Get(encH)
-				accHdr := rec.Header().Get(accH)
-				obs := fmt.Sprintf("ONegOk %s %s", h.CoqStr(respEnc), h.CoqStr(accHdr))
-				if code == "unimplemented" {
-					names := msg
-					if i := strings.LastIndex(msg, " are "); i >= 0 {
-						names = msg[i+5:]
+					payload := []byte("q")
+					wire := payload
+					flag := byte(0)
+					switch sent {
+					case "tagA", "tagB", "tagC":
+						wire, flag = compressToy(sent, payload), 1
+					case "gzip":
+						var b bytes.Buffer
+						zw := gzip.NewWriter(&b)
+						_, _ = zw.Write(payload)
+						_ = zw.Close()
+						wire, flag = b.Bytes(), 1
 					}
-					obs = fmt.Sprintf("ONegErr %s", h.CoqStr(names))
-				}
-				r.Sample("negotiate", map[string]any{"in": in, "response_encoding": respEnc, "accept_header": accHdr, "error": code, "message": msg, "user_calls": calls})
-				r.Case("negotiate", fmt.Sprintf("NegCase %s %s %s (%s)", h.CoqList(coqReg), h.CoqStr(sent), h.CoqStr(accept), obs),
-					map[string]any{"in": in, "impl_response_encoding": respEnc, "impl_accept_header": accHdr, "impl_error": code, "impl_message": msg})
-				// ---- direct oracle ----
-				has := func(n string) bool {
-					for _, x := range registered {
-						if x == n {
-							return true
+					body := wire
+					if !unary {
+						body = h.Frame(flag, wire)
+					}
+					req := httptest.NewRequest(http.MethodPost, "/verif.Svc/M", bytes.NewReader(body))
+					req.Header.Set("Content-Type", cfg.contentType(unary))
+					encH, accH := cfg.encodingHeader(unary), "Grpc-Accept-Encoding"
+					if proto == "connect" {
+						accH = "Connect-Accept-Encoding"
+						if unary {
+							accH = "Accept-Encoding"
 						}
 					}
-					return false
-				}
-				if sent != "" && sent != "identity" && !has(sent) {
-					if code != "unimplemented" || calls != 0 {
-						r.Fail(h.Failure{Key: "negotiate/unknown-not-rejected", Family: "negotiate", What: "a request compressed with an algorithm the handler lacks was not rejected as unimplemented before user code", Input: in, Actual: fmt.Sprint(code, " calls=", calls)})
-					} else {
-						for _, n := range registered {
-							if !strings.Contains(msg, n) {
-								r.Fail(h.Failure{Key: "negotiate/unimplemented-message", Family: "negotiate", What: "the unimplemented error does not list the supported algorithms", Input: in, Actual: msg})
+					if sent != "" {
+						req.Header[encH] = []string{sent}
+					}
+					if accept != "" {
+						req.Header[accH] = []string{accept}
+					}
+					// what the OTHER protocols (and plain HTTP) use to advertise encodings says nothing
+					// about this protocol's message compression: a user agent adds "Accept-Encoding: gzip"
+					// on its own, a proxy may forward anything
+					foreign := http.Header{}
+					if withForeign {
+						for _, name := range []string{"Accept-Encoding", "Connect-Accept-Encoding", "Grpc-Accept-Encoding"} {
+							if name != accH {
+								foreign[name] = []string{"gzip, tagA, tagB"}
+								req.Header[name] = foreign[name]
 							}
 						}
 					}
-					continue
-				}
-				if code != "" {
-					r.Fail(h.Failure{Key: "negotiate/unexpected-error", Family: "negotiate", What: "negotiable request failed", Input: in, Actual: code + ": " + msg})
-					continue
-				}
-				if respEnc != "" && respEnc != "identity" {
-					if !has(respEnc) {
-						r.Fail(h.Failure{Key: "negotiate/unsupported-response-alg", Family: "negotiate", What: "the handler named a response algorithm it does not support", Input: in, Actual: respEnc})
+					rec := httptest.NewRecorder()
+					p := safely(func() { handler.ServeHTTP(rec, req) })
+					in := map[string]any{"registered": registered, "proto": proto, "unary": unary, "request_encoding": sent, "accept_encoding": accept, "accept_header": accH, "other_headers": foreign}
+					r.Eval("negotiate", fmt.Sprint(in))
+					if p != nil {
+						r.Fail(h.Failure{Key: "negotiate/panic", Family: "negotiate", What: fmt.Sprint("panic: ", p), Input: in})
+						continue
 					}
-					offered := respEnc == sent
-					for _, f := range strings.FieldsFunc(accept, func(c rune) bool { return c == ',' || c == ' ' }) {
-						if f == respEnc {
-							offered = true
+					kind := "server"
+					if unary {
+						kind = "unary"
+					}
+					code, msg := peerError(proto, kind, rec)
+					respEnc := rec.Header().Get(encH)
+					accHdr := rec.Header().Get(accH)
+					obs := fmt.Sprintf("ONegOk %s %s", h.CoqStr(respEnc), h.CoqStr(accHdr))
+					if code == "unimplemented" {
+						names := msg
+						if i := strings.LastIndex(msg, " are "); i >= 0 {
+							names = msg[i+5:]
+						}
+						obs = fmt.Sprintf("ONegErr %s", h.CoqStr(names))
+					}
+					r.Sample("negotiate", map[string]any{"in": in, "response_encoding": respEnc, "accept_header": accHdr, "error": code, "message": msg, "user_calls": calls})
+					r.Case("negotiate", fmt.Sprintf("NegCase %s %s %s (%s)", h.CoqList(coqReg), h.CoqStr(sent), h.CoqStr(accept), obs),
+						map[string]any{"in": in, "impl_response_encoding": respEnc, "impl_accept_header": accHdr, "impl_error": code, "impl_message": msg})
+					// ---- direct oracle ----
+					has := func(n string) bool {
+						for _, x := range registered {
+							if x == n {
+								return true
+							}
+						}
+						return false
+					}
+					if sent != "" && sent != "identity" && !has(sent) {
+						if code != "unimplemented" || calls != 0 {
+							r.Fail(h.Failure{Key: "negotiate/unknown-not-rejected", Family: "negotiate", What: "a request compressed with an algorithm the handler lacks was not rejected as unimplemented before user code", Input: in, Actual: fmt.Sprint(code, " calls=", calls)})
+						} else {
+							for _, n := range registered {
+								if !strings.Contains(msg, n) {
+									r.Fail(h.Failure{Key: "negotiate/unimplemented-message", Family: "negotiate", What: "the unimplemented error does not list the supported algorithms", Input: in, Actual: msg})
+								}
+							}
+						}
+						continue
+					}
+					if code != "" {
+						r.Fail(h.Failure{Key: "negotiate/unexpected-error", Family: "negotiate", What: "negotiable request failed", Input: in, Actual: code + ": " + msg})
+						continue
+					}
+					if respEnc != "" && respEnc != "identity" {
+						if !has(respEnc) {
+							r.Fail(h.Failure{Key: "negotiate/unsupported-response-alg", Family: "negotiate", What: "the handler named a response algorithm it does not support", Input: in, Actual: respEnc})
+						}
+						offered := respEnc == sent
+						for _, f := range strings.FieldsFunc(accept, func(c rune) bool { return c == ',' || c == ' ' }) {
+							if f == respEnc {
+								offered = true
+							}
+						}
+						if !offered {
+							r.Fail(h.Failure{Key: "negotiate/not-offered", Family: "negotiate", What: "the handler compressed with an algorithm the client neither used nor advertised", Input: in, Actual: respEnc})
 						}
 					}
-					if !offered {
-						r.Fail(h.Failure{Key: "negotiate/not-offered", Family: "negotiate", What: "the handler compressed with an algorithm the client neither used nor advertised", Input: in, Actual: respEnc})
-					}
-				}
-				if sent == "" || sent == "identity" {
-					want := ""
-					for _, f := range strings.FieldsFunc(accept, func(c rune) bool { return c == ',' || c == ' ' }) {
-						if has(f) {
-							want = f
-							break
+					if sent == "" || sent == "identity" {
+						want := ""
+						for _, f := range strings.FieldsFunc(accept, func(c rune) bool { return c == ',' || c == ' ' }) {
+							if has(f) {
+								want = f
+								break
+							}
+						}
+						if respEnc != want {
+							r.Fail(h.Failure{Key: "negotiate/preference", Family: "negotiate", What: "the handler did not pick the client's most-preferred mutually supported algorithm", Input: in, Expected: want, Actual: respEnc})
 						}
 					}
-					if respEnc != want {
-						r.Fail(h.Failure{Key: "negotiate/preference", Family: "negotiate", What: "the handler did not pick the client's most-preferred mutually supported algorithm", Input: in, Expected: want, Actual: respEnc})
-					}
-				}
-				// the response body must be decodable with the named algorithm and flagged iff compressed
-				if !unary {
-					b := rec.Body.Bytes()
-					if len(b) >= 5 {
-						compressed := b[0]&1 == 1
-						if compressed && (respEnc == "" || respEnc == "identity") {
-							r.Fail(h.Failure{Key: "negotiate/flag-without-encoding", Family: "negotiate", What: "a message is flagged compressed although the encoding header names no algorithm", Input: in})
+					// the response body must be decodable with the named algorithm and flagged iff compressed
+					if !unary {
+						b := rec.Body.Bytes()
+						if len(b) >= 5 {
+							compressed := b[0]&1 == 1
+							if compressed && (respEnc == "" || respEnc == "identity") {
+								r.Fail(h.Failure{Key: "negotiate/flag-without-encoding", Family: "negotiate", What: "a message is flagged compressed although the encoding header names no algorithm", Input: in})
+							}
 						}
 					}
 				}
 			}
+		}
+	}
+
+	// ---- a unary Connect ERROR body compressed with an algorithm the client advertised ----
+	for i := 0; i < r.N(16, 96); i++ {
+		code := connect.Code(1 + i%16)
+		msg := errMessages[1+rng.Intn(len(errMessages)-2)]
+		algo := []string{"tagA", "tagB"}[i%2]
+		plain, _ := json.Marshal(map[string]any{"code": code.String(), "message": msg})
+		status := map[connect.Code]int{1: 408, 2: 500, 3: 400, 4: 408, 5: 404, 6: 409, 7: 403, 8: 429, 9: 412, 10: 409, 11: 400, 12: 404, 13: 500, 14: 503, 15: 500, 16: 401}[code]
+		hdr := http.Header{"Content-Type": {"application/json"}, "Content-Encoding": {algo}, "X-Peer-Meta": {"v1"}}
+		body := compressToy(algo, plain)
+		res := doCall(envCfg{Proto: "connect"}, "unary", func() *http.Response {
+			return h.NewResponse(status, hdr.Clone(), h.NewChunkBody([][]byte{body}, h.FinCleanEOF), nil)
+		})
+		in := map[string]any{"proto": "connect", "kind": "unary", "status": status, "content_encoding": algo, "client_accepts": "tagA,tagB,rle", "error_json": string(plain)}
+		r.Eval("unary_error_compressed", fmt.Sprint(i, algo, code, msg))
+		if res.panicked != nil || res.timedOut {
+			r.Fail(h.Failure{Key: "negotiate/panic", Family: "unary_error_compressed", What: fmt.Sprint("panic or hang: ", res.panicked), Input: in})
+			continue
+		}
+		r.Sample("unary_error_compressed", map[string]any{"in": in, "client_error": fmt.Sprint(res.err)})
+		if res.err == nil || connect.CodeOf(res.err) != code || !strings.Contains(res.err.Error(), msg) {
+			r.Fail(h.Failure{Key: "lossless/compressed-error-not-decoded", Family: "unary_error_compressed", What: "an error body compressed with an algorithm the client advertised did not decompress to the error the peer sent", Input: in, Expected: code.String() + ": " + msg, Actual: fmt.Sprint(res.err)})
 		}
 	}
 
